@@ -19,7 +19,6 @@ import (
 	"net/http"
 	"net/url"
 	"os"
-	"sync"
 	"time"
 
 	"github.com/influxdata/influxdb/services/meta"
@@ -369,16 +368,34 @@ func memberScenarios(extra int) []MemberDesc {
 // the scenarios are independent clusters on their own ports: run them side by side
 func runMembers(o *hx.Out, ds []MemberDesc, origin string) {
 	o.Begin("member", map[string]interface{}{"note": "membership scenarios running concurrently", "scenarios": ds})
-	out := make([]memberResult, len(ds))
-	var wg sync.WaitGroup
+	// Every wait inside a scenario has its own time limit, but shutting a real meta.Service down
+	// (raft, its transport, the HTTP listener) has none and was seen to hang for good on a loaded
+	// machine.  This part is a MONITOR of behaviour outside the model: a scenario that does not
+	// finish in time is counted as inconclusive like every other unsettled scenario, it must not
+	// take the whole check down.
+	res := make(chan struct {
+		i int
+		r memberResult
+	}, len(ds))
 	for i := range ds {
-		wg.Add(1)
 		go func(i int) {
-			defer wg.Done()
-			out[i] = runMemberScenario(ds[i], origin)
+			res <- struct {
+				i int
+				r memberResult
+			}{i, runMemberScenario(ds[i], origin)}
 		}(i)
 	}
-	wg.Wait()
+	out := make([]memberResult, len(ds))
+	deadline := time.After(240 * time.Second)
+	for got := 0; got < len(ds); got++ {
+		select {
+		case x := <-res:
+			out[x.i] = x.r
+		case <-deadline:
+			o.Count(fmt.Sprintf("member:inconclusive:watchdog:%d-unfinished", len(ds)-got))
+			got = len(ds)
+		}
+	}
 	for _, r := range out {
 		for _, k := range r.stats {
 			o.Count(k)
